@@ -28,6 +28,9 @@ LEMMAS = {
     "sum_ge_quota": "(forall c in [0,k). C[c] >= lim + [L[c]=0]) -> sumI(C,k) >= k*lim + cnt(L,0,k)",
     "sum_eq_quota": "(forall c in [0,k). C[c] <= lim + [L[c]=0]) and sumI(C,k) = k*lim + cnt(L,0,k) -> forall c in [0,k). C[c] = lim + [L[c]=0]",
     "inj_surj": "an injective map of [0,n) into [0,n) is onto (finite pigeonhole)",
+    "cnt_step": "cnt(a, q, 0) = 0 and, for j >= 0, cnt(a, q, j+1) = cnt(a, q, j) + [a[j]=q]",
+    "mul_steps": "for integers c >= 0, j >= 0: c*j >= 0; c*(j+1) = c*j + c; j+1 <= n -> c*(j+1) <= c*n",
+    "sum_one_out": "(forall c in [0,k). C[c] >= lim) and 0 <= c0 < k -> sumI(C,k) >= (k-1)*lim + C[c0]",
 }
 
 
@@ -98,7 +101,56 @@ def track(E, arr, want_sum=False):
             E.axiom(sumIF(new, n) == val * z3.If(n >= 0, n, 0))
             E.used_lemmas.add("sum_const")
     cell.on_fill = on_fill
+
+    def on_copy(cell):
+        c = z3.Const(fresh_name(cell.name + "_copied"), IA)
+        i = z3.Int(fresh_name("cpi"))
+        E.assume(z3.ForAll([i], c[i] == z3.simplify(cell.term[i]), patterns=[c[i]]))      # the same array, cell by cell
+        cell.term = c
+        basics(c)
+    cell.on_copy = on_copy
     basics(cell.term)
+
+
+def usable_trigger(t, depth=0):
+    """no if-then-else and no lambda / quantifier inside (z3 refuses such patterns, with a warning on stderr)"""
+    if z3.is_quantifier(t):
+        return False
+    if z3.is_app(t):
+        if t.decl().kind() == z3.Z3_OP_ITE:
+            return False
+        return depth > 40 or all(usable_trigger(c, depth + 1) for c in t.children())
+    return True
+
+
+def _forall(vs, body, pat):
+    if not usable_trigger(pat):
+        return z3.ForAll(vs, body)          # the solver chooses its triggers
+    try:
+        return z3.ForAll(vs, body, patterns=[pat])
+    except z3.Z3Exception:
+        return z3.ForAll(vs, body)
+
+
+def cnt_step(E, arr, j):
+    """instances for the prefix length j: cnt(a, q, 0) = 0 and cnt(a, q, j) = cnt(a, q, j-1) + [a[j-1]=q] when j >= 1"""
+    t, j = arr.cell.term, z(j)
+    q = z3.Int(fresh_name("cq"))
+    E.axiom(_forall([q], cntF(t, q, z3.IntVal(0)) == 0, cntF(t, q, z3.IntVal(0))))
+    jm = z3.simplify(j - 1)
+    body = cntF(t, q, j) == cntF(t, q, jm) + _b(t[jm] == q)
+    E.axiom(z3.Implies(j >= 1, _forall([q], body, cntF(t, q, j))))
+    E.used_lemmas.add("cnt_step")
+
+
+def sum_one_out(E, C, k, KL, lim):
+    """every counter >= lim -> each single counter is at most the total minus (k-1)*lim; KL is the term k*lim"""
+    tc, k = C.cell.term, z(k)
+    c = z3.Int(fresh_name("qc"))
+    c0 = z3.Int(fresh_name("q0"))
+    ge = z3.ForAll([c], z3.Implies(z3.And(c >= 0, c < k), tc[c] >= z(lim)))
+    E.axiom(z3.Implies(ge, z3.ForAll([c0], z3.Implies(z3.And(c0 >= 0, c0 < k), sumIF(tc, k) >= KL - z(lim) + tc[c0]), patterns=[tc[c0]])))
+    E.used_lemmas.add("sum_one_out")
 
 
 def congr(E, a, b, n=None):
